@@ -422,6 +422,22 @@ func vfGenWellFormed(t *rapid.T, label string) vfFrame {
 				f.Sep = append(f.Sep, edge.Draw(t, label+"-trail"))
 			}
 		}
+		if rapid.IntRange(0, 4).Draw(t, label+"-stretch") == 0 {
+			// long inline lines: total length at and around multiples of the reader's 4096-byte buffer
+			target := rapid.SampledFrom([]int{4093, 4094, 4095, 4096, 4097, 8190, 8191, 8192, 8193, 12287, 0}).Draw(t, label+"-linelen")
+			if target == 0 {
+				target = rapid.IntRange(200, 13000).Draw(t, label+"-linelen-any")
+			}
+			cur := 0
+			for i, a := range f.Args {
+				cur += len(f.Sep[i]) + len(a)
+			}
+			cur += len(f.Sep[len(f.Args)])
+			if extra := target - cur; extra > 0 {
+				i := rapid.IntRange(0, len(f.Args)-1).Draw(t, label+"-stretch-arg")
+				f.Args[i] = append(append([]byte(nil), f.Args[i]...), bytes.Repeat([]byte{'a'}, extra)...)
+			}
+		}
 		return f
 	}
 	n := rapid.IntRange(0, 6).Draw(t, label+"-n")
@@ -781,7 +797,7 @@ func vfGenConn(t *rapid.T) vfConnCase {
 
 func TestCheck(t *testing.T) {
 	s := &pbt.Suite{ID: "C31", Level: "exploration",
-		Rule: "parse: inputs are (a) streams of 1-4 well-formed frames (RESP arrays with binary/empty/CRLF-containing/8 KiB arguments, inline commands with blanks), " +
+		Rule: "parse: inputs are (a) streams of 1-4 well-formed frames (RESP arrays with binary/empty/CRLF-containing/8 KiB arguments, inline commands with blanks, one in five stretched to a line length at or around a multiple of 4096), " +
 			"(b) array frames with mutated declared lengths (negative, non-numeric, up to 99999999999999999999), truncations, (c) arbitrary bytes. " +
 			"Oracle: parseRESP never panics; TotalAlloc delta of the calls <= 64*len(input)+64KiB (declared lengths are first probed clamped to 2^16, 2^22, 2^28, then literal); " +
 			"each well-formed frame yields exactly its argv and the stream ends with io.EOF. Non-trivial = a well-formed stream with >= 1 argument (distinct by bytes), " +
